@@ -22,6 +22,8 @@ type Solver struct {
 	timeoutMs int
 	log       *os.File
 	bin       []string
+	history   []string // commands since the last reset (for restart after a hard timeout)
+	nRestart  int
 
 	// statistics
 	nSat, nUnsat, nUnknown, nErr int
@@ -54,6 +56,29 @@ func (s *Solver) start() {
 	s.Reset()
 }
 
+func (s *Solver) restart(hist []string) {
+	cmd := exec.Command(s.bin[0], s.bin[1:]...)
+	in, _ := cmd.StdinPipe()
+	out, _ := cmd.StdoutPipe()
+	cmd.Stderr = os.Stderr
+	if err := cmd.Start(); err != nil {
+		panic(abortErr{"solver", "cannot restart solver"})
+	}
+	s.cmd, s.in, s.out = cmd, in, bufio.NewReaderSize(out, 1<<20)
+	// drop the trailing "(push 1)" + assertion of the query that timed out
+	n := len(hist)
+	for n > 0 && hist[n-1] != "(push 1)" {
+		n--
+	}
+	if n > 0 {
+		n--
+	}
+	for _, h := range hist[:n] {
+		s.rawSend(h)
+	}
+	s.history = hist[:n]
+}
+
 func (s *Solver) Close() {
 	if s.cmd != nil {
 		s.in.Close()
@@ -64,6 +89,24 @@ func (s *Solver) Close() {
 }
 
 func (s *Solver) send(str string) {
+	if str == "(reset)" {
+		s.history = s.history[:0]
+	}
+	if str == "(pop 1)" {
+		n := len(s.history)
+		for n > 0 && s.history[n-1] != "(push 1)" {
+			n--
+		}
+		if n > 0 {
+			s.history = s.history[:n-1]
+		}
+	} else {
+		s.history = append(s.history, str)
+	}
+	s.rawSend(str)
+}
+
+func (s *Solver) rawSend(str string) {
 	if s.log != nil {
 		s.log.WriteString(str)
 		s.log.WriteString("\n")
@@ -184,11 +227,14 @@ func (s *Solver) readSexp() string {
 // Check decides pc ∧ extra. Returns "sat", "unsat" or "unknown" (errors and timeouts are unknown).
 // If wantModel and sat, values of the requested terms are returned.
 func (s *Solver) Check(c *Ctx, extra *Term, wantModel bool, q []*Term) (string, []*big.Int) {
-	return s.CheckEval(c, extra, wantModel, q, nil)
+	return s.CheckEval(c, nil, extra, wantModel, q, nil)
 }
 
 // CheckEval is Check with a callback that may evaluate further (inline) expressions in the model.
-func (s *Solver) CheckEval(c *Ctx, extra *Term, wantModel bool, q []*Term, more func(vals []*big.Int, eval func(exprs []string) []*big.Int)) (string, []*big.Int) {
+func (s *Solver) CheckEval(c *Ctx, pcs []*Term, extra *Term, wantModel bool, q []*Term, more func(vals []*big.Int, eval func(exprs []string) []*big.Int)) (string, []*big.Int) {
+	for _, t := range pcs {
+		s.emit(c, t)
+	}
 	if extra != nil {
 		if extra.IsFalse() {
 			return "unsat", nil
@@ -199,16 +245,36 @@ func (s *Solver) CheckEval(c *Ctx, extra *Term, wantModel bool, q []*Term, more 
 		s.emit(c, t)
 	}
 	s.send("(push 1)")
+	for _, t := range pcs {
+		if !t.IsTrue() {
+			s.send("(assert " + t.ref() + ")")
+		}
+	}
 	if extra != nil && !extra.IsTrue() {
 		s.send("(assert " + extra.ref() + ")")
 	}
 	t0 := time.Now()
-	s.send("(check-sat)")
-	s.send("(echo \"@@done\")")
+	s.rawSend("(check-sat)")
+	s.rawSend("(echo \"@@done\")")
 	res := "unknown"
 	sawErr := false
+	// hard deadline: some z3 tactics ignore the soft timeout
+	killed := false
+	proc := s.cmd.Process
+	timer := time.AfterFunc(time.Duration(s.timeoutMs)*time.Millisecond*2+5*time.Second, func() {
+		killed = true
+		proc.Kill()
+	})
 	for {
-		line := s.readLine()
+		line, err := s.out.ReadString('\n')
+		if err != nil {
+			if killed {
+				break
+			}
+			timer.Stop()
+			panic(abortErr{"solver", "solver died: " + err.Error()})
+		}
+		line = strings.TrimSpace(line)
 		if line == "@@done" || line == "\"@@done\"" {
 			break
 		}
@@ -221,6 +287,17 @@ func (s *Solver) CheckEval(c *Ctx, extra *Term, wantModel bool, q []*Term, more 
 		if line == "sat" || line == "unsat" || line == "unknown" {
 			res = line
 		}
+	}
+	timer.Stop()
+	if killed {
+		// restart and replay the session (assertions only), then report unknown
+		s.cmd.Wait()
+		s.nRestart++
+		s.nUnknown++
+		s.solveTime += time.Since(t0)
+		hist := append([]string(nil), s.history...)
+		s.restart(hist)
+		return "unknown", nil
 	}
 	if sawErr {
 		res = "unknown"
